@@ -1,5 +1,5 @@
 import MindsVerif.Lemmas.WalkLift
-/-! A schema all of whose rows are right makes every tree `okTree`. -/
+/-! A schema all of whose rows are right (and which has no container slots) makes every tree `okTree`. -/
 namespace MindsVerif.Walk
 
 theorem rowOK_nodeOK (r : ClassRow) (present : List Nat) (h : rowOK r = true) : nodeOK r present = true := by
@@ -12,8 +12,8 @@ theorem rowOK_nodeOK (r : ClassRow) (present : List Nat) (h : rowOK r = true) : 
     intro e he
     have := h1 e he
     simp only [Bool.and_eq_true, Bool.not_eq_true'] at this
-    simp [this.1.1, this.1.2, this.2]
-  · have := congrArg (List.filter (fun q : Nat × Bool × Bool => present.contains q.1)) h2'
+    simp [this.1, this.2]
+  · have := congrArg (List.filter (fun q : Nat × Bool × Bool × Bool => present.contains q.1)) h2'
     rw [List.filter_map, List.filter_map, List.filter_filter] at this
     simp only [Function.comp_def] at this
     rw [beq_iff_eq]
@@ -28,10 +28,10 @@ theorem rowOK_nodeOK (r : ClassRow) (present : List Nat) (h : rowOK r = true) : 
     · exact h3 p (List.mem_range.mpr hlt)
     · have : r.kind p = .name := by
         simp [ClassRow.kind, List.getD_eq_getElem?_getD, List.getElem?_eq_none (Nat.le_of_not_lt hlt)]
-      simp [this, Kind.required]
-  · have h4' : (r.print.filter (fun p => (r.kind p).required)).Nodup := by simpa using h4
-    have : r.print.filter (fun p => (r.kind p).required && present.contains p)
-        = (r.print.filter (fun p => (r.kind p).required)).filter (fun p => present.contains p) := by
+      simp [this, Kind.relevant, Kind.required]
+  · have h4' : (r.print.filter (fun p => (r.kind p).relevant)).Nodup := by simpa using h4
+    have : r.print.filter (fun p => (r.kind p).relevant && present.contains p)
+        = (r.print.filter (fun p => (r.kind p).relevant)).filter (fun p => present.contains p) := by
       rw [List.filter_filter]
       apply List.filter_congr
       intro p _
@@ -39,26 +39,43 @@ theorem rowOK_nodeOK (r : ClassRow) (present : List Nat) (h : rowOK r = true) : 
     rw [this]
     simpa using h4'.sublist List.filter_sublist
 
-def schemaOK (σ : Schema) : Bool := σ.all rowOK
+/-- every row is right and no slot is a container -/
+def schemaOK (σ : Schema) : Bool := σ.all (fun r => rowOK r && r.kinds.all (fun k => k != .container))
 
-theorem schemaOK_row (σ : Schema) (h : schemaOK σ = true) (c : Nat) : rowOK (σ.row c) = true := by
+theorem schemaOK_row (σ : Schema) (h : schemaOK σ = true) (c : Nat) :
+    rowOK (σ.row c) = true ∧ ∀ s, ((σ.row c).kind s == Kind.container) = false := by
+  have key : ∀ r : ClassRow, (rowOK r && r.kinds.all (fun k => k != .container)) = true →
+      rowOK r = true ∧ ∀ s, (r.kind s == Kind.container) = false := by
+    intro r hr
+    simp only [Bool.and_eq_true] at hr
+    refine ⟨hr.1, fun s => ?_⟩
+    simp only [ClassRow.kind, List.getD_eq_getElem?_getD]
+    cases hs : r.kinds[s]? with
+    | none => rfl
+    | some k =>
+      have hm : k ∈ r.kinds := List.mem_of_getElem? hs
+      have := (List.all_eq_true.mp hr.2) k hm
+      simpa using this
   simp only [Schema.row]
   by_cases hc : c < σ.length
   · rw [List.getD_eq_getElem?_getD, List.getElem?_eq_getElem hc]
-    exact (List.all_eq_true.mp h) _ (List.getElem_mem hc)
+    exact key _ ((List.all_eq_true.mp h) _ (List.getElem_mem hc))
   · rw [List.getD_eq_getElem?_getD, List.getElem?_eq_none (Nat.le_of_not_lt hc)]
-    decide
+    exact key _ (by decide)
 
 mutual
 theorem okTree_of_schemaOK (σ : Schema) (h : schemaOK σ = true) : ∀ t, okTree σ t = true
   | .mk c s t ks => by
     simp only [okTree, Bool.and_eq_true]
-    exact ⟨rowOK_nodeOK _ _ (schemaOK_row σ h c), okTreeL_of_schemaOK σ h ks⟩
-theorem okTreeL_of_schemaOK (σ : Schema) (h : schemaOK σ = true) : ∀ ks, okTreeL σ ks = true
-  | [] => by simp [okTreeL]
-  | k :: ks => by
-    simp only [okTreeL, Bool.and_eq_true]
-    exact ⟨okTree_of_schemaOK σ h k, okTreeL_of_schemaOK σ h ks⟩
+    exact ⟨rowOK_nodeOK _ _ (schemaOK_row σ h c).1, okKids_of_schemaOK σ h c ks⟩
+theorem okKids_of_schemaOK (σ : Schema) (h : schemaOK σ = true) (c0 : Nat) : ∀ ks, okKids σ (σ.row c0) ks = true
+  | [] => by simp [okKids]
+  | .mk c s t gs :: ks => by
+    simp only [okKids, Bool.and_eq_true, (schemaOK_row σ h c0).2 s, Bool.false_eq_true, if_false]
+    refine ⟨?_, okKids_of_schemaOK σ h c0 ks⟩
+    split
+    · exact okTree_of_schemaOK σ h (.mk c s t gs)
+    · rfl
 end
 
 end MindsVerif.Walk
